@@ -69,7 +69,62 @@ func c40Requests(thorough bool) []genRequest {
 			out = append(out, genRequest{fmt.Sprintf("synthetic %s (%s) level=%s", s.fdp.GetName(), s.name, lv), gen.Request(gen.WithGlobalDeps(s.fdp), []string{s.fdp.GetName()}, "default_api_level="+lv)})
 		}
 	}
+	// a message-typed custom option (10 scalar fields and a map with 8 entries)
+	// declared in the request and unknown to the plugin binary: protogen
+	// re-parses such options into dynamic messages, whose field order is a Go
+	// map's; the option is used on a message, a field and the file
+	rule, user := customOptionFiles()
+	for _, lv := range apiLevels {
+		out = append(out, genRequest{fmt.Sprintf("synthetic %s using a message-typed custom option of %s level=%s", user.GetName(), rule.GetName(), lv),
+			gen.Request(gen.WithGlobalDeps(rule, user), []string{user.GetName()}, "default_api_level="+lv)})
+		out = append(out, genRequest{fmt.Sprintf("synthetic %s + %s (custom option) level=%s", rule.GetName(), user.GetName(), lv),
+			gen.Request(gen.WithGlobalDeps(rule, user), []string{rule.GetName(), user.GetName()}, "default_api_level="+lv)})
+	}
 	return out
+}
+
+func customOptionFiles() (rule, user *descriptorpb.FileDescriptorProto) {
+	opt := descriptorpb.FieldDescriptorProto_LABEL_OPTIONAL.Enum()
+	rm := &descriptorpb.DescriptorProto{Name: proto.String("Rule")}
+	var body []byte
+	for i := 1; i <= 10; i++ {
+		name := fmt.Sprintf("f%d", i)
+		rm.Field = append(rm.Field, &descriptorpb.FieldDescriptorProto{Name: proto.String(name), Number: proto.Int32(int32(i)), Type: descriptorpb.FieldDescriptorProto_TYPE_STRING.Enum(), Label: opt, JsonName: proto.String(name)})
+		body = protowire.AppendString(protowire.AppendTag(body, protowire.Number(i), protowire.BytesType), fmt.Sprintf("value %d", i))
+	}
+	rm.NestedType = []*descriptorpb.DescriptorProto{{Name: proto.String("LabelsEntry"), Options: &descriptorpb.MessageOptions{MapEntry: proto.Bool(true)}, Field: []*descriptorpb.FieldDescriptorProto{
+		{Name: proto.String("key"), Number: proto.Int32(1), Type: descriptorpb.FieldDescriptorProto_TYPE_STRING.Enum(), Label: opt, JsonName: proto.String("key")},
+		{Name: proto.String("value"), Number: proto.Int32(2), Type: descriptorpb.FieldDescriptorProto_TYPE_INT32.Enum(), Label: opt, JsonName: proto.String("value")}}}}
+	rm.Field = append(rm.Field, &descriptorpb.FieldDescriptorProto{Name: proto.String("labels"), Number: proto.Int32(20), Type: descriptorpb.FieldDescriptorProto_TYPE_MESSAGE.Enum(), TypeName: proto.String(".verif.c40.rule.Rule.LabelsEntry"), Label: descriptorpb.FieldDescriptorProto_LABEL_REPEATED.Enum(), JsonName: proto.String("labels")})
+	for i := 0; i < 8; i++ {
+		e := protowire.AppendString(protowire.AppendTag(nil, 1, protowire.BytesType), fmt.Sprintf("k%d", i))
+		e = protowire.AppendVarint(protowire.AppendTag(e, 2, protowire.VarintType), uint64(i))
+		body = protowire.AppendBytes(protowire.AppendTag(body, 20, protowire.BytesType), e)
+	}
+	ext := func(name string, num int32, extendee string) *descriptorpb.FieldDescriptorProto {
+		return &descriptorpb.FieldDescriptorProto{Name: proto.String(name), Number: proto.Int32(num), Type: descriptorpb.FieldDescriptorProto_TYPE_MESSAGE.Enum(), TypeName: proto.String(".verif.c40.rule.Rule"), Label: opt, Extendee: proto.String(extendee)}
+	}
+	rule = &descriptorpb.FileDescriptorProto{
+		Name: proto.String("verif/c40/rule.proto"), Package: proto.String("verif.c40.rule"), Syntax: proto.String("proto2"),
+		Dependency:  []string{"google/protobuf/descriptor.proto"},
+		MessageType: []*descriptorpb.DescriptorProto{rm},
+		Extension:   []*descriptorpb.FieldDescriptorProto{ext("msg_rule", 50001, ".google.protobuf.MessageOptions"), ext("field_rule", 50002, ".google.protobuf.FieldOptions"), ext("file_rule", 50003, ".google.protobuf.FileOptions")},
+	}
+	setGoPackage(rule, "custrule")
+	unk := func(num protowire.Number) []byte { return protowire.AppendBytes(protowire.AppendTag(nil, num, protowire.BytesType), body) }
+	mo := &descriptorpb.MessageOptions{}
+	mo.ProtoReflect().SetUnknown(unk(50001))
+	fo := &descriptorpb.FieldOptions{}
+	fo.ProtoReflect().SetUnknown(unk(50002))
+	user = &descriptorpb.FileDescriptorProto{
+		Name: proto.String("verif/c40/user.proto"), Package: proto.String("verif.c40.user"), Syntax: proto.String("proto2"),
+		Dependency: []string{"verif/c40/rule.proto"},
+		MessageType: []*descriptorpb.DescriptorProto{{Name: proto.String("User"), Options: mo, Field: []*descriptorpb.FieldDescriptorProto{
+			{Name: proto.String("id"), Number: proto.Int32(1), Type: descriptorpb.FieldDescriptorProto_TYPE_INT64.Enum(), Label: opt, JsonName: proto.String("id"), Options: fo}}}},
+	}
+	setGoPackage(user, "custuser")
+	user.Options.ProtoReflect().SetUnknown(unk(50003))
+	return rule, user
 }
 
 func digest(resp *pluginpb.CodeGeneratorResponse, err error) string {
@@ -141,7 +196,7 @@ func firstDiffFile(a, b *pluginpb.CodeGeneratorResponse) string {
 
 func runC40(c *core.Ctx) {
 	repeats := core.Pick(c, 6, 12)
-	c.Rule = fmt.Sprintf("request universe: every linked file on its own (with its import closure) under 6 parameter strings (quick: all 6 on every sixth file, the default on the rest), plus synthetic files (9 extendee targets with interleaved extensions, 9 oneofs, 9 imports, 9 top-level and nested enums; every field shape of proto2/proto3/editions 2023/2024 in one message; colliding names) at API levels OPEN/HYBRID/OPAQUE. Every request is run %d times in this process and once in a second process: all responses byte-identical (deterministic marshal of CodeGeneratorResponse). Order independence: for 3 interdependent synthetic files, every permutation of file_to_generate and every permutation of the three as separate single-file requests yields the same content per generated file name; the same for an edition-2024 pair where one file uses custom options of the other through 'import option' (the declaring file is not a regular dependency), in both request orders. Go map iteration order is not a controlled seam: an unordered iteration over n>=8 entries survives r in-process repeats with probability <= 8^-r (documented in DESIGN.md)", repeats)
+	c.Rule = fmt.Sprintf("request universe: every linked file on its own (with its import closure) under 6 parameter strings (quick: all 6 on every sixth file, the default on the rest), plus synthetic files (9 extendee targets with interleaved extensions, 9 oneofs, 9 imports, 9 top-level and nested enums; every field shape of proto2/proto3/editions 2023/2024 in one message; colliding names; a file using a message-typed custom option - 10 fields and an 8-entry map, on a file, a message and a field - that is declared in the request and not linked into the plugin) at API levels OPEN/HYBRID/OPAQUE. Every request is run %d times in this process and once in a second process: all responses byte-identical (deterministic marshal of CodeGeneratorResponse). Order independence: for 3 interdependent synthetic files, every permutation of file_to_generate and every permutation of the three as separate single-file requests yields the same content per generated file name; the same for an edition-2024 pair where one file uses custom options of the other through 'import option' (the declaring file is not a regular dependency), in both request orders. Go map iteration order is not a controlled seam: an unordered iteration over n>=8 entries survives r in-process repeats with probability <= 8^-r (documented in DESIGN.md)", repeats)
 	c.Exhaustive = true
 	var child *core.Child
 	if !core.IsChild() {
